@@ -207,6 +207,7 @@ def run_case(case):
         for _ in range(case["n"]):
             sp = rng.randrange(256)
             r = rng.random()
+            big = False
             if r < 0.2:
                 s = gen.make_system(rng)
                 c02.assign_mixtures(rng, s)
@@ -222,13 +223,23 @@ def run_case(case):
                             e.root.bond = rng.choice(["=", "#", "="])
                             cnt["leading_bond_tokens"] += 1
                 if rng.random() < 0.3:
-                    m.mixture = rng.choice([("abs", 5000.0), ("pct", 25.0), ("abs", 5e7), ("pct", 0.5)])
+                    m.mixture = rng.choice([("abs", 5000.0), ("pct", 25.0), ("abs", 5e7), ("pct", 0.5), ("abs", 1.8e16), ("abs", 1234567.890123)])
+                big = rng.random() < 0.12
+                if big:
+                    # distribution parameters with seven and more significant digits (parse / print only: such blocks are far too long to generate)
+                    from ..ast import DistAst
+
+                    st0 = rng.choice([e for e in m.elements if isinstance(e, StochAst)])
+                    st0.dist = rng.choice([DistAst("uniform", (1234567, 2345678)), DistAst("gauss", (1234567.125, 23456.5)), DistAst("log_normal", (1234567.5, 1.234567)),
+                                           DistAst("poisson", (1234567,)), DistAst("schulz_zimm", (2345678.0, 1234567.0)), DistAst("flory_schulz", (1.234567e-7,)), DistAst("uniform", (98765432, 123456789))])
+                    st0.dist.pfmt = rng.randrange(6)
+                    cnt["big_distribution_parameters"] += 1
                 if r < 0.4:
                     st = rng.choice([e for e in m.elements if isinstance(e, StochAst)])
                     level, text = "stochastic", st.to_text(True, sp, True)
                 else:
                     level, text = "molecule", m.to_text(True, sp, rng.random() < 0.05)
-            c = roundtrip(level, text, cnt, viol, nt, rng, do_generate=rng.random() < 0.12)
+            c = roundtrip(level, text, cnt, viol, nt, rng, do_generate=rng.random() < 0.12 and not (level != "system" and big))
             if sample is None and c:
                 sample = {"level": level, "text": text, "canonical": c}
     else:
